@@ -63,9 +63,11 @@ def evolution_attr(gen, fields, steps):
         n = name_str(s["n"])
         if s["op"] == "Added":
             f = fmap.get(n)
-            if f is None or f["tr"] or s["dv"] == []:
-                d = "()"          # never compiled into the impl: the field is gone or transient
+            if f is None or s["dv"] == []:
+                d = "()"          # never compiled into the impl: the field is gone
             else:
+                # (also for a field that was made transient later: the macro does not use this expression then,
+                # but a definition written by hand would carry a real one - seeded S47 / S54)
                 d = mv(gen, field_type(gen, f), s["dv"])
             parts.append('FieldAdded("%s", %s)' % (n, d))
         elif s["op"] == "MadeOptional":
